@@ -1052,6 +1052,12 @@ def mutate(plan, rng):
             p["opts"][k] = o[k]
     elif r < 0.8:
         p["mode"] = rng.choice(MODES)
+        if p["mode"] not in ("stream", "stream-gz", "split", "stdout-stream", "split-stdout"):
+            # grouped records are generated for the record-stream outputs only (how text renderers lay out the flat
+            # view of a group is not modelled): keep the mutated plan inside the generator's domain
+            for s in p["sources"]:
+                for rec in s.get("recs") or []:
+                    rec.pop("group", None)
     elif len(p["sources"]) < 6 and p["opts"]["sel"] not in NEEDS_TAGS:
         p["sources"].append(gen_source(rng, rng.choice(["good"] + FAULT_KINDS), len(p["sources"])))
     return p
